@@ -289,6 +289,10 @@ class BaseSelector:
         list[str]
             List of selected features
         """
+        # pairing y with the rows of X on their index labels, whatever the order of the rows
+        if not X.index.equals(y.index):
+            y = y.reindex(X.index)
+
         # iterating over each type of feature
         all_best_features = []
         for dtype in unique(list(self.input_dtypes.keys())):
